@@ -1,5 +1,13 @@
 package main
 
+import (
+	"fmt"
+	"go/ast"
+	"go/types"
+	"sort"
+	"strings"
+)
+
 // propertyExtras returns the obligations produced by property-specific generators.
 func propertyExtras(eng *Engine, prop, tier, vdir string) (extras []Extra, bounded []string, notes []string) {
 	switch prop {
@@ -7,6 +15,228 @@ func propertyExtras(eng *Engine, prop, tier, vdir string) (extras []Extra, bound
 		ex, n := relangExtras(eng, vdir)
 		extras = append(extras, ex...)
 		notes = append(notes, n...)
+	case "C10":
+		extras = append(extras, analyzerWiringExtras(eng)...)
+		notes = append(notes, "wiring/*: every pass.ResultOf[D] read by a run function has D in the analyzer's Requires and every exported fact type is in FactTypes (otherwise the driver panics); decided on the syntax")
+	case "C06":
+		extras = append(extras, gobShapeExtras(eng)...)
+		extras = append(extras, analyzerWiringExtras(eng)...)
+		notes = append(notes, "gobshape/*: structural obligations on the fact types (every field reachable from annotations.PackageAnnotations is exported and of a kind encoding/gob transmits without registration); decided on the type graph, no solver")
 	}
 	return extras, bounded, notes
+}
+
+
+// gobShapeExtras: facts cross process boundaries as gob streams. A field that gob silently drops (unexported) or cannot
+// encode (func, chan, interface without registration, unsafe pointer) would make importers see different annotations
+// than the declaring package (C06). One obligation per field reachable from the fact payload type.
+func gobShapeExtras(eng *Engine) []Extra {
+	var out []Extra
+	var pkg *types.Package
+	for path, p := range eng.pkgs {
+		if strings.HasSuffix(path, "/src/annotations") && p.Types != nil {
+			pkg = p.Types
+		}
+	}
+	if pkg == nil {
+		return []Extra{{Name: "gobshape/annotations", Kind: "gobshape", Detail: "package annotations not found", Decided: true, OK: false}}
+	}
+	obj, _ := pkg.Scope().Lookup("PackageAnnotations").(*types.TypeName)
+	if obj == nil {
+		return []Extra{{Name: "gobshape/PackageAnnotations", Kind: "gobshape", Detail: "type PackageAnnotations not found", Decided: true, OK: false}}
+	}
+	seen := map[string]bool{}
+	var walk func(where string, t types.Type)
+	add := func(name, detail string, ok bool, why string) {
+		out = append(out, Extra{Name: "gobshape/" + name, Kind: "gobshape", Detail: detail, Decided: true, OK: ok, Output: why})
+	}
+	walk = func(where string, t types.Type) {
+		switch u := types.Unalias(t).(type) {
+		case *types.Named:
+			key := u.String()
+			if seen[key] {
+				return
+			}
+			seen[key] = true
+			if st, ok := u.Underlying().(*types.Struct); ok {
+				for i := 0; i < st.NumFields(); i++ {
+					f := st.Field(i)
+					name := u.Obj().Name() + "." + f.Name()
+					if !f.Exported() {
+						add(name, "field is exported (gob drops unexported fields silently)", false, "unexported field "+name+" of a fact type")
+						continue
+					}
+					add(name, "field is exported and of a gob-encodable kind", encodable(f.Type()), fmt.Sprintf("field %s has type %s", name, f.Type()))
+					walk(name, f.Type())
+				}
+				return
+			}
+			walk(where, u.Underlying())
+		case *types.Pointer:
+			walk(where, u.Elem())
+		case *types.Slice:
+			walk(where, u.Elem())
+		case *types.Array:
+			walk(where, u.Elem())
+		case *types.Map:
+			walk(where, u.Key())
+			walk(where, u.Elem())
+		}
+	}
+	walk("PackageAnnotations", obj.Type())
+	sort.Slice(out, func(i, j int) bool { return out[i].Name < out[j].Name })
+	return out
+}
+
+func encodable(t types.Type) bool {
+	switch u := types.Unalias(t).Underlying().(type) {
+	case *types.Basic:
+		return u.Kind() != types.UnsafePointer && u.Kind() != types.Invalid
+	case *types.Pointer:
+		return encodable(u.Elem())
+	case *types.Slice:
+		return encodable(u.Elem())
+	case *types.Array:
+		return encodable(u.Elem())
+	case *types.Map:
+		return encodable(u.Key()) && encodable(u.Elem())
+	case *types.Struct:
+		return true // its fields are checked one by one
+	}
+	return false // func, chan, interface, ...
+}
+
+
+// analyzerWiringExtras: what the run functions assume of the driver must follow from the Analyzer values themselves:
+// every analyzer whose result a run function reads through pass.ResultOf[D] lists D in Requires (otherwise the entry is
+// absent and the type assertion on it panics), and the fact type a run function exports is listed in FactTypes
+// (otherwise ExportPackageFact panics). Decided on the syntax of package analyzer.
+func analyzerWiringExtras(eng *Engine) []Extra {
+	var out []Extra
+	for path, p := range eng.pkgs {
+		if !strings.HasSuffix(path, "/src/analyzer") {
+			continue
+		}
+		info := p.TypesInfo
+		// run function name -> (ResultOf dependencies, exported fact type names)
+		type use struct {
+			deps  map[string]bool
+			facts map[string]bool
+		}
+		uses := map[string]*use{}
+		for _, f := range p.Syntax {
+			for _, d := range f.Decls {
+				fd, ok := d.(*ast.FuncDecl)
+				if !ok || fd.Body == nil {
+					continue
+				}
+				u := &use{deps: map[string]bool{}, facts: map[string]bool{}}
+				uses[fd.Name.Name] = u
+				ast.Inspect(fd.Body, func(n ast.Node) bool {
+					switch x := n.(type) {
+					case *ast.IndexExpr:
+						if sel, ok := x.X.(*ast.SelectorExpr); ok && sel.Sel.Name == "ResultOf" {
+							if id, ok := x.Index.(*ast.Ident); ok {
+								u.deps[id.Name] = true
+							}
+						}
+					case *ast.CallExpr:
+						if sel, ok := x.Fun.(*ast.SelectorExpr); ok && sel.Sel.Name == "ExportPackageFact" && len(x.Args) == 1 {
+							if t := info.TypeOf(x.Args[0]); t != nil {
+								if pt, ok := t.(*types.Pointer); ok {
+									if n, ok := pt.Elem().(*types.Named); ok {
+										u.facts[n.Obj().Name()] = true
+									}
+								}
+							}
+						}
+					}
+					return true
+				})
+			}
+		}
+		for _, f := range p.Syntax {
+			for _, d := range f.Decls {
+				gd, ok := d.(*ast.GenDecl)
+				if !ok {
+					continue
+				}
+				for _, sp := range gd.Specs {
+					vs, ok := sp.(*ast.ValueSpec)
+					if !ok || len(vs.Values) != 1 || len(vs.Names) != 1 {
+						continue
+					}
+					ue, ok := vs.Values[0].(*ast.UnaryExpr)
+					if !ok {
+						continue
+					}
+					cl, ok := ue.X.(*ast.CompositeLit)
+					if !ok {
+						continue
+					}
+					if t := info.TypeOf(cl); t == nil || !strings.HasSuffix(t.String(), "analysis.Analyzer") {
+						continue
+					}
+					name := vs.Names[0].Name
+					run := ""
+					requires := map[string]bool{}
+					facts := map[string]bool{}
+					for _, el := range cl.Elts {
+						kv, ok := el.(*ast.KeyValueExpr)
+						if !ok {
+							continue
+						}
+						switch kv.Key.(*ast.Ident).Name {
+						case "Run":
+							if id, ok := kv.Value.(*ast.Ident); ok {
+								run = id.Name
+							}
+						case "Requires":
+							if l, ok := kv.Value.(*ast.CompositeLit); ok {
+								for _, e := range l.Elts {
+									if id, ok := e.(*ast.Ident); ok {
+										requires[id.Name] = true
+									}
+								}
+							}
+						case "FactTypes":
+							if l, ok := kv.Value.(*ast.CompositeLit); ok {
+								for _, e := range l.Elts {
+									if t := info.TypeOf(e); t != nil {
+										if pt, ok := t.(*types.Pointer); ok {
+											if n, ok := pt.Elem().(*types.Named); ok {
+												facts[n.Obj().Name()] = true
+											}
+										}
+									}
+								}
+							}
+						}
+					}
+					u := uses[run]
+					if u == nil {
+						out = append(out, Extra{Name: "wiring/" + name + "/run", Kind: "wiring", Detail: "the analyzer's Run is a function of package analyzer", Decided: true, OK: false, Output: "Run function not found: " + run})
+						continue
+					}
+					var deps, fts []string
+					for d := range u.deps {
+						deps = append(deps, d)
+					}
+					for ft := range u.facts {
+						fts = append(fts, ft)
+					}
+					sort.Strings(deps)
+					sort.Strings(fts)
+					for _, d := range deps {
+						out = append(out, Extra{Name: "wiring/" + name + "/requires:" + d, Kind: "wiring", Detail: run + " reads pass.ResultOf[" + d + "], so " + name + ".Requires lists " + d, Decided: true, OK: requires[d], Output: d + " is not in " + name + ".Requires"})
+					}
+					for _, ft := range fts {
+						out = append(out, Extra{Name: "wiring/" + name + "/facttype:" + ft, Kind: "wiring", Detail: run + " exports a *" + ft + ", so " + name + ".FactTypes lists it", Decided: true, OK: facts[ft], Output: ft + " is not in " + name + ".FactTypes"})
+					}
+				}
+			}
+		}
+	}
+	sort.Slice(out, func(i, j int) bool { return out[i].Name < out[j].Name })
+	return out
 }
